@@ -547,5 +547,45 @@ theorem declare_keeps {off : Bool} (names : List String) : CoreKeeps off (declar
 
 theorem aDeclare_keepsAll {off : Bool} (ns : List String) (h : Nat) : AKeeps off h (aDeclare ns) :=
   aDeclare_keeps ns (declare_keeps ns) h
+/-- `image(trans, source, rename, qvars, forall)` of autoref with dynamic reordering possibly
+enabled (repair of F4c: the arguments become names, the body runs inside the decorator): operands
+are live `Function`s, renaming and quantified variables by declared names, the code's own
+preconditions by name -/
+theorem aImage_image_keepsAtDyn (a : AMgr) (ht hs : Nat) (l : List (String × String))
+    (qs : List String) (fa : Bool) (h : Nat)
+    (hpre : ∀ t s, a.handles[ht]? = some t → a.handles[hs]? = some s →
+      ImagePre t s l qs a.m.tbl) :
+    AKeepsAt false a h (aImage false ht hs (l.map fun p => (Key.name p.1, Key.name p.2))
+      (qs.map Key.name) fa h) := by
+  intro hi
+  revert hi
+  unfold aImage
+  intro hi
+  refine AKeepsAt.bind_read a (nodeOwn_read ht) (fun t h1 => ?_) hi
+  refine AKeepsAt.bind_read a (nodeSame_read hs) (fun s h2 => ?_)
+  have ht' := nodeOwn_handle ht a t h1
+  have hs' := nodeSame_handle hs a s h2
+  exact wrapResult_keepsAt a (keepsAtDyn_of a hi
+    (C09_image_transparent (hext a) a.m hi.minv.dynInv t s (heldX_of_handle a ht')
+      (heldX_of_handle a hs') fa l qs (hpre t s ht' hs'))) h
+
+/-- `preimage(trans, target, rename, qvars, forall)` of autoref with dynamic reordering possibly
+enabled: the frame (invariant, counts, every live `Function` keeps its node and its meaning) -/
+theorem aImage_preimage_keepsAtDyn (a : AMgr) (ht hs : Nat) (l : List (String × String))
+    (qs : List String) (fa : Bool) (h : Nat)
+    (hpre : ∀ s, a.handles[hs]? = some s → PreimagePreN s l qs a.m.tbl) :
+    AKeepsAt false a h (aImage true ht hs (l.map fun p => (Key.name p.1, Key.name p.2))
+      (qs.map Key.name) fa h) := by
+  intro hi
+  revert hi
+  unfold aImage
+  intro hi
+  refine AKeepsAt.bind_read a (nodeOwn_read ht) (fun t h1 => ?_) hi
+  refine AKeepsAt.bind_read a (nodeSame_read hs) (fun s h2 => ?_)
+  have ht' := nodeOwn_handle ht a t h1
+  have hs' := nodeSame_handle hs a s h2
+  exact wrapResult_keepsAt a (keepsAtDyn_of a hi
+    (C09_preimage_transparent (hext a) a.m hi.minv.dynInv t s (heldX_of_handle a ht')
+      (heldX_of_handle a hs') fa l qs (hpre s hs'))) h
 
 end DD
